@@ -33,6 +33,8 @@ struct FindConflicts<'a, 'ctx> {
 impl<'a> FindConflicts<'a, '_> {
     pub fn find(&mut self, on_type: Option<&'a str>, selection_set: &'a Positioned<SelectionSet>) {
         for selection in &selection_set.node.items {
+            #[cfg(feature = "verif-hooks")]
+            crate::verif_hooks::tick();
             match &selection.node {
                 Selection::Field(field) => {
                     let output_name = field
